@@ -475,6 +475,53 @@ theorem leaf_restricted (m : Mode) (cs : CharSet) (fuel : Nat) (bs : Bytes)
   rw [this]
   simp
 
+/-! ### the untagged readers (`take_value`, `take_primitive`, `take_constructed` and their `_opt`
+    forms): on a source whose next identifier is (cls, num) they are the tag-selective readers for
+    that tag, with the closure applied to it -/
+
+theorem bodyF_tag (c : Cons) (op : Tag → Content → Prog (α × Content)) (hd : Nat) (g2 : G0) (id : Ident)
+    (len? : Option Nat) :
+    bodyF c op hd g2 id len? = bodyF c (fun _ => op (C12.tagOf id.cls id.num)) hd g2 id len? := by
+  unfold bodyF; rfl
+
+/-- **untagged = tag-selective for the tag that is there** -/
+theorem untagged_eq (c : Cons) (cls num : Nat) (hc : cls ≤ 3) (hn : num ≤ 0x1fffff)
+    (op : Tag → Content → Prog (α × Content)) (g : G0) (hf : g.frames = [])
+    (b : Bool) (k : Nat) (hr : readIdent g.view = some (⟨cls, b, num⟩, k)) :
+    runG0 (processNextValue c none op) g =
+      runG0 (processNextValue c (some (C12.tagOf cls num)) (fun _ => op (C12.tagOf cls num))) g := by
+  rw [pnv_eq c op g hf, pnvE_eq c cls num hc hn _ g hf]
+  unfold pnvF pnvE headerF
+  have hv : g.view ≠ [] := by intro h; rw [h] at hr; simp [readIdent] at hr
+  have hv' : ¬ (c.state = .unbounded ∧ g.view = []) := fun h => hv h.2
+  simp only [hv, hv', if_false, hr, and_self, if_true]
+  by_cases h1 : c.state = .done
+  · simp [h1]
+  · by_cases h2 : c.state = .definite ∧ g.limit = none
+    · simp [h1, h2]
+    · by_cases h3 : c.state = .definite ∧ g.limit = some 0
+      · simp [h1, h2, h3]
+      · simp only [h1, h2, h3, if_false]
+        cases readLen c.mode.isBer (g.adv k).view with
+        | none => simp
+        | some r =>
+          obtain ⟨len?, kl⟩ := r
+          simp only [and_false, if_false]
+          exact bodyF_tag c op g.data.length ((g.adv k).adv kl) ⟨cls, b, num⟩ len?
+
+/-- the round trip carries over from the tag-selective reader to the untagged one -/
+theorem rtf_untagged (m : Mode) (P : Bytes → Prop) (cls num : Nat) (hc : cls ≤ 3) (hn : num ≤ 0x1fffff)
+    (bytes : Bytes) (hfirst : FirstIs bytes cls num)
+    (op : Tag → Content → Prog (α × Content)) (v : Option α)
+    (h : RTF m P bytes (fun c => processNextValue c (some (C12.tagOf cls num)) (fun _ => op (C12.tagOf cls num))) v) :
+    RTF m P bytes (fun c => processNextValue c none op) v := by
+  intro c tail lim hm hnd hdef hcov hP
+  obtain ⟨b, k, hr⟩ := hfirst
+  obtain ⟨t', hv⟩ := view_covers bytes tail lim hcov
+  rw [untagged_eq c cls num hc hn op (St (bytes ++ tail) lim) rfl b k
+    (by rw [hv]; exact C16.readIdent_append bytes t' _ k hr)]
+  exact h c tail lim hm hnd hdef hcov hP
+
 /-! ### the codec algebra with absent fields -/
 
 /-- pairs of an encoder composition and a decoder built from the crate's reading combinators, with
@@ -532,6 +579,22 @@ inductive CodecF (m : Mode) : List (Nat × Nat) → {β : Type} → Enc → (Con
       (h : CodecF m T e d v) : CodecF m T (.choice n i e) d v
   | map {β γ : Type} (T : List (Nat × Nat)) (e : Enc) (d : Cons → Prog (β × Cons)) (v : β) (f : β → γ)
       (h : CodecF m T e d v) : CodecF m T e (fun c => do let (a, c1) ← d c; pure (f a, c1)) (f v)
+  /-- the untagged readers `take_opt_value`, `take_opt_primitive`, `take_opt_constructed` (closure
+      `op`, which is handed the tag): as the tag-selective reader for the tag that was written -/
+  | untagged {α : Type} (T : List (Nat × Nat)) (e : Enc) (cls num : Nat) (ht : TagOK cls num)
+      (hfirst : ∀ b, e.write m = .ok b → FirstIs b cls num)
+      (op : Tag → Content → Prog (α × Content)) (v : Option α)
+      (h : CodecF m T e (fun c => processNextValue c (some (C12.tagOf cls num)) (fun _ => op (C12.tagOf cls num))) v) :
+      CodecF m T e (fun c => processNextValue c none op) v
+  /-- `take_value`, `take_primitive`, `take_constructed`: the mandatory forms -/
+  | mandatoryOf {β : Type} (T : List (Nat × Nat)) (e : Enc) (d : Cons → Prog (Option β × Cons)) (v : β)
+      (h : CodecF m T e d (some v)) : CodecF m T e (fun c => mandatory (d c)) v
+  /-- `Some(v)` writes what `v` writes: a present value may be read by an optional reader whether
+      or not the writer wrapped it in an `Option` -/
+  | unwrapSome {β : Type} (T : List (Nat × Nat)) (e : Enc) (d : Cons → Prog (β × Cons)) (v : β)
+      (h : CodecF m T (.optSome e) d v) : CodecF m T e d v
+  | wrapSome {β : Type} (T : List (Nat × Nat)) (e : Enc) (d : Cons → Prog (β × Cons)) (v : β)
+      (h : CodecF m T e d v) : CodecF m T (.optSome e) d v
   /-- a larger follow set is a stronger demand -/
   | weaken {β : Type} (T T' : List (Nat × Nat)) (e : Enc) (d : Cons → Prog (β × Cons)) (v : β)
       (hs : ∀ t ∈ T, t ∈ T') (h : CodecF m T e d v) : CodecF m T' e d v
@@ -620,6 +683,18 @@ theorem codecF_roundtrip (m : Mode) (T : List (Nat × Nat)) {β : Type} (e : Enc
   | map T e d v f h ih =>
     intro bytes hw
     exact rtf_map m _ bytes d v f (ih bytes hw)
+  | untagged T e cls num ht hfirst op v h ih =>
+    intro bytes hw
+    exact rtf_untagged m _ cls num ht.hc ht.hn bytes (hfirst bytes hw) op v (ih bytes hw)
+  | mandatoryOf T e d v h ih =>
+    intro bytes hw
+    exact rtf_mandatory m _ bytes d v (ih bytes hw)
+  | unwrapSome T e d v h ih =>
+    intro bytes hw
+    exact ih bytes (by simpa only [Enc.write] using hw)
+  | wrapSome T e d v h ih =>
+    intro bytes hw
+    exact ih bytes (by simpa only [Enc.write] using hw)
   | weaken T T' e d v hs h ih =>
     intro bytes hw
     exact rtf_weaken m _ _ bytes d v (fun view hq => tailOK_mono T' T view hs hq) (ih bytes hw)
@@ -770,5 +845,54 @@ theorem sampleS_roundtrip (bytes : Bytes) (hw : sampleS.write .der = .ok bytes) 
     runG0 (decodeTop .der sampleSDec) (St bytes none) =
       .ok ((.prim [0x41, 0x31], .prim [1, 2, 3], none, ()), St [] none) :=
   topF_roundtrip .der [] sampleS sampleSDec _ sampleS_codec bytes hw
+
+/-! non-vacuity for the untagged readers: a CHOICE { INTEGER, BOOLEAN } read with `take_value`, the
+    closure choosing by the tag it is handed -/
+
+theorem primDecodes_map (p : Prog α) (f : α → β) (cnt : Bytes) (v : α) (h : PrimDecodes p cnt v) :
+    PrimDecodes (do let a ← p; pure (f a)) cnt (f v) := by
+  intro tail
+  have h1 := h tail
+  rw [primRun_unfold] at h1 ⊢
+  simp only [runG0_bind, runG0_pure]
+  cases hr : runG0 p (St (cnt ++ tail) (some cnt.length)) with
+  | error e => rw [hr] at h1; cases h1
+  | ok r =>
+    obtain ⟨a, g'⟩ := r
+    rw [hr] at h1
+    simp only at h1 ⊢
+    cases hx : runG0 limitedExhausted g' with
+    | error e => rw [hx] at h1; cases h1
+    | ok r2 =>
+      obtain ⟨u, g''⟩ := r2
+      rw [hx] at h1
+      simp only [Except.ok.injEq, Prod.mk.injEq] at h1 ⊢
+      exact ⟨by rw [h1.1], h1.2⟩
+
+def intAlt : Prog (Int ⊕ Bool) := do let a ← toInt .i16; pure (Sum.inl a)
+def boolAlt : Prog (Int ⊕ Bool) := do let a ← toBool .der; pure (Sum.inr a)
+
+def choiceOp : Tag → Content → Prog ((Int ⊕ Bool) × Content) := fun t =>
+  if t = C12.tagOf 0 2 then asPrimitive (fun md => do let a ← intAlt; pure (a, md))
+  else if t = C12.tagOf 0 1 then asPrimitive (fun md => do let a ← boolAlt; pure (a, md))
+  else fun _ => Prog.contentErr
+
+theorem choice_codec :
+    CodecF .der [] (.choice 2 0 (.prim (C12.tagOf 0 2) (.int .i16 300))) (fun c => takeValue c choiceOp) (Sum.inl 300) := by
+  have t2 : TagOK 0 2 := ⟨by omega, by omega, by omega⟩
+  refine CodecF.mandatoryOf [] _ _ _ (CodecF.untagged [] _ 0 2 t2
+    (first_choice .der 2 0 _ 0 2 (first_prim .der 0 2 t2 _ rfl)) choiceOp _ ?_)
+  have e : choiceOp (C12.tagOf 0 2) = asPrimitive (fun md => do let a ← intAlt; pure (a, md)) := by
+    simp [choiceOp]
+  rw [e]
+  exact CodecF.choice [] 2 0 _ _ _ (CodecF.unwrapSome [] _ _ _ (CodecF.ofCodec _ _ _
+    (Codec.optPrim (m := .der) 0 2 t2 (.int .i16 300) rfl intAlt (Sum.inl 300)
+      (primDecodes_map (toInt .i16) Sum.inl _ 300 (leaf_int .i16 300 rfl)))))
+
+/-- the CHOICE value written with `Choice2` comes back through the untagged `take_value` -/
+theorem choice_roundtrip (bytes : Bytes)
+    (hw : (Enc.choice 2 0 (.prim (C12.tagOf 0 2) (.int .i16 300))).write .der = .ok bytes) :
+    runG0 (decodeTop .der (fun c => takeValue c choiceOp)) (St bytes none) = .ok (Sum.inl 300, St [] none) :=
+  topF_roundtrip .der [] _ _ _ choice_codec bytes hw
 
 end Bcder.Props.C04b
